@@ -592,21 +592,15 @@ def gen_specs(rng, tier):
     return specs
 
 
-FINDING_BY_TAG = {55: ('C18-REDUCED-SINGLE-GROUP', 202),
-                  42: ('C18-EXHAUSTIVE-SET-ZIP', 204), 71: ('C18-LET-BYPASSES-VALIDATION', 217),
-                  78: ('C18-TRANSITS-EQ-TUPLE', 218)}
-GUARD_TAGS = (201, 202, 203, 204, 210, 211, 212, 213, 214, 215, 217, 218, 219)
-# MFL algebra: oracle tag -> candidate (guard tag, finding) pairs, first guard that is false wins
+# oracle tag -> candidate (guard tag, finding) pairs, first guard that is false and whose finding is open wins
 MFL_FINDINGS = {
-    # peripheral order / reachability: three or more counts (201), or counts not listed in increasing order (203)
-    52: [(201, 'C18-PERIPH-ORDER'), (203, 'C18-PERIPH-UNSORTED')],
-    53: [(201, 'C18-PERIPH-ORDER'), (203, 'C18-PERIPH-UNSORTED')],
-    74: [(211, 'C18-EQ-COVARIATE-ONEWAY'), (212, 'C18-EQ-TUPLES-STRUCTURAL'), (213, 'C18-EQ-IGNORES-METABOLITE')],
+    74: [(212, 'C18-EQ-TUPLES-STRUCTURAL'), (213, 'C18-EQ-IGNORES-METABOLITE')],
     75: [(214, 'C18-SUBSET-TRANSITS-PRODUCT')],
     761: [(210, 'C18-MFL-WILDCARD')],
     762: [(210, 'C18-MFL-WILDCARD'), (215, 'C18-SUB-PD-EMPTY')],
     763: [(210, 'C18-MFL-WILDCARD')], 764: [(210, 'C18-MFL-WILDCARD')], 765: [(210, 'C18-MFL-WILDCARD')],
-    766: [(210, 'C18-MFL-WILDCARD')], 77: [(219, 'C18-LNT-PK-INCLUDES-MET')],
+    766: [(210, 'C18-MFL-WILDCARD')],
+    71: [(217, 'C18-LET-BYPASSES-VALIDATION')],
 }
 
 
@@ -615,10 +609,6 @@ def explain(ctx, spec, tag, tags):
     the guard conjunct of that finding is false on this input, and the finding is listed open."""
     if set(tags) & set(_c18().CORR):
         return None
-    if tag in FINDING_BY_TAG:
-        fid, guard_tag = FINDING_BY_TAG[tag]
-        if guard_tag in tags and ctx.open_finding(fid):
-            return fid
     for guard_tag, fid in MFL_FINDINGS.get(tag, []):
         if guard_tag in tags and ctx.open_finding(fid):
             return fid
@@ -626,20 +616,20 @@ def explain(ctx, spec, tag, tags):
 
 
 def distribution(kept, verdicts, infos):
-    d = {'stepwise_guard_periph_false': 0, 'reduced_single_group': 0, 'stepwise_max_depth': 0, 'reduced_collectors': 0}
+    d = {'stepwise_three_or_more_peripherals': 0, 'stepwise_unsorted_peripherals': 0, 'stepwise_max_depth': 0, 'reduced_collectors': 0}
     for s, v, i in zip(kept, verdicts, infos):
-        if s['kind'] in ('step', 'red') and 201 in v:
-            d['stepwise_guard_periph_false'] += 1
-        if s['kind'] == 'red' and 202 in v:
-            d['reduced_single_group'] += 1
+        if s['kind'] in ('step', 'red') and i.get('periph', 0) >= 3:
+            d['stepwise_three_or_more_peripherals'] += 1
+        if s['kind'] in ('step', 'red') and s.get('keep') == 'PERIPHERALS' and not s.get('sort'):
+            d['stepwise_unsorted_peripherals'] += 1
         if s['kind'] == 'step':
             d['stepwise_max_depth'] = max(d['stepwise_max_depth'], i.get('maxdepth', 0))
         if s['kind'] == 'red':
             d['reduced_collectors'] += i.get('collectors', 0)
     fam, errs, guards = {}, {}, {}
-    names = {210: 'g_no_wildcard', 211: 'g_cov_symmetric', 212: 'g_tuples_canonical', 213: 'g_same_metabolite',
+    names = {210: 'g_no_wildcard', 212: 'g_tuples_canonical', 213: 'g_same_metabolite',
              214: 'g_transits_product', 215: 'g_pd_difference', 216: 'contain_subset_outside_pk_domain',
-             217: 'g_let_not_forced', 218: 'g_transits_stmt_equal', 219: 'g_no_met_peripherals', 204: 'all_same_cat'}
+             217: 'g_let_not_forced', 220: 'transits_eq_wildcard_vs_list'}
     for s, v, i in zip(kept, verdicts, infos):
         if s['kind'] in ('mfl', 'lnt', 'teq', 'exh'):
             if s['kind'] == 'mfl':
@@ -810,15 +800,16 @@ def observe_teq(spec):
         return tm.Transits(tuple(counts), Wildcard() if depot == '*' else tuple(Name(d) for d in depot))
     t1, t2 = mk(spec['t1']), mk(spec['t2'])
     r = (t1 == t2)
-    is_pair = isinstance(r, tuple) and len(r) == 2 and all(isinstance(x, bool) for x in r)
-    c1, c2 = (r if is_pair else (False, False))
-    if not is_pair and not isinstance(r, bool):
+    if isinstance(r, tuple):
+        is_bool, truth = False, bool(r)
+    elif isinstance(r, bool):
+        is_bool, truth = True, r
+    else:
         raise Unexportable(f'Transits.__eq__ returned {r!r}')
 
     def term(t):
         return f'(mkP {modes_term(t.counts, codes, ints=True)} {modes_term(t.depot, codes)})'
-    return (f'(CTeq {term(t1)} {term(t2)} {ct.boolean(is_pair)} {ct.boolean(c1)} {ct.boolean(c2)} {ct.boolean(bool(r))})',
-            {'n_out': 1, 'n': 2})
+    return (f'(CTeq {term(t1)} {term(t2)} {ct.boolean(is_bool)} {ct.boolean(truth)})', {'n_out': 1, 'n': 2})
 
 
 def gen_teq_spec(rng):
